@@ -14,6 +14,8 @@ work = tempfile.mkdtemp(prefix="sany.", dir="/verif/.scratch")
 for d in ("/verif/spec", "/verif/spec/trace"):
     for f in glob.glob(d + "/*.tla"):
         shutil.copy(f, work)
+from harness import rules_lib as rl
+open(os.path.join(work, "RulesData.tla"), "w").write(rl.rules_data_tla(*rl.extract()))
 for f in sorted(glob.glob(work + "/*.tla")):
     ok, out = tlc.sany(f)
     print("SANY", os.path.basename(f), "ok" if ok else "FAILED")
